@@ -75,7 +75,7 @@ func verdict(err error) string {
 }
 
 func (f *certFam) setup(scheme string, n int, cache uint, agg bool) {
-	opts := []core.RuntimeOption{core.WithCache(cache)}
+	opts := []core.RuntimeOption{core.WithCache(cache), core.WithSyncVerification()}
 	if agg {
 		opts = append(opts, core.WithAggregateQC())
 	}
